@@ -157,6 +157,12 @@ def run(tier, seed):
         ws[k] = bytes(bad)
         ff = None if fmt == 2 else 0
         r1, p1 = itsgen.packet(ws, fmt=fmt, ff=ff, orbit=7, fee=0x502A, pages=0)
+        if rng.random() < 0.35:
+            # the header-size byte of the RDH0 claims something else than 64 (reported by the RDH sanity check at the RDH position): the
+            # payload still starts 64 bytes behind the RDH -- that is where the reader cut it -- and the words keep their true offsets
+            r1 = bytearray(r1)
+            r1[1] = rng.choice([0x00, 0x20, 0x3F, 0x41, 0x50, 0x80, 0xFF])
+            r1 = bytes(r1)
         cd = itsgen.layout([(r1, p1)], start=rng.choice([0, 0x40, 0x1000, 0xABCDE0]))
         mode = rng.choice(["sanity", "all"])
         lcases.append(rawdata.link_line("%s its - -" % mode, cd))
